@@ -163,6 +163,14 @@ def checkReinstate (i : Nat) (b a : Obs) (res : Res) : Bool :=
 def checkAge (b a : Obs) : Bool :=
   a.pSig == b.pSig && a.gSig == b.gSig && allIdx b.cs a.cs (fun _ bj aj => visible aj == visible bj)
 
+/-- the public `PID.Restart` on child `i`: the restart clause of the text for that child alone ("re-runs PreStart
+    with fresh state and bumps the restart count"; PostStop ran when it was running), nobody else is touched -/
+def checkRestartPub (v : Variant) (i : Nat) (b a : Obs) (res : Res) : Bool :=
+  a.pSig == b.pSig && a.gSig == b.gSig &&
+  allIdx b.cs a.cs (fun j bj aj =>
+    if j == i && bj.reg then res == .ok && checkChild v .restart false true bj aj
+    else (j != i || res == .err) && visible aj == visible bj)
+
 /-- the harness' `age` op moves the current run of consecutive faults of child `i` into the distant past -/
 def ageHists (w : Int) (i : Nat) (h : Hists) : Hists :=
   h.mapIdx (fun j l => if j == i then List.replicate (specCount w l) 1 else l)
@@ -178,6 +186,7 @@ def judgeStep (v : Variant) (opts : List Opt) (h : Hists) (now : Int) (op : Op) 
   | .age i => (checkAge b a && res == .ok, ageHists (window (newSupervisor opts)) i h)
   -- a harness intervention on the test actor (its next PreStart calls fail); nothing observable changes
   | .failPre _ _ => (checkAge b a && res == .ok, h)
+  | .restartPub i => (checkRestartPub v i b a res, h)
 
 /-- the oracle over a whole script, for any per-step verdict `js`: `b` is the observation before the
     first op, the list holds the observation and the op's result after each op -/
